@@ -1,4 +1,4 @@
-import OrdModel.Basic
+import OrdModel.Basic.Outcome
 import OrdModel.Codec.Varint
 import OrdModel.Proofs.Varint
 import OrdModel.Theorems.C26
